@@ -26,7 +26,7 @@ CallVerdict(sigs, oc) ==
         clause == RefClause(c, real)
     IN IF \E i \in 1..Len(sigs) : RefBinds(sigs[i], oc.call) # oc.pybind[i] THEN "oracle:binder"
        ELSE IF ~InProperty(c) THEN (IF real # model.res THEN "drift:result" ELSE "ok")
-       ELSE IF clause # "ok" THEN (IF DevClass(c) # "" THEN "dev:" \o DevClass(c) ELSE "viol:" \o clause)
+       ELSE IF clause # "ok" THEN (IF Excused(c, clause) THEN "dev:" \o DevClass(c) ELSE "viol:" \o clause)
        ELSE IF real # model.res THEN "drift:result"
        ELSE IF oc.steps # model.steps THEN "drift:steps"
        ELSE "ok"
